@@ -671,7 +671,19 @@ func (e *env) inspect(vals []rt.Value) bool {
 	return false
 }
 
+// mark: with C08_MARKERS set, a recognisable (failing) file system call that tells a system call trace
+// which case the following system calls belong to: /.c08/<kind>/<F>/<function>
+var markers = os.Getenv("C08_MARKERS") != ""
+
+func mark(kind string, F int, sym string) {
+	if markers {
+		syscall.Access("/.c08/"+kind+"/"+strconv.Itoa(F)+"/"+strings.ReplaceAll(sym, "/", "_"), 0)
+	}
+}
+
 func (e *env) oneCase(fi *fnInfo, F int, sp string, t tuple) (outcome, effect string) {
+	mark("case", F, fi.sym)
+	defer mark("end", F, fi.sym)
 	args := []rt.Value{rt.StringValue(flagString(F)), rt.StringValue(sp), fi.val}
 	if sp == "index" {
 		if len(t.vals) > 0 {
@@ -772,6 +784,8 @@ func (e *env) oneCase(fi *fnInfo, F int, sp string, t tuple) (outcome, effect st
 var nestChains = []string{"4,8", "1,2,4", "0c", "0m,8", "4,0t", "0,0", "8,0cm", "2,0,1"}
 
 func (e *env) nest(fi *fnInfo, chain string) string {
+	mark("nest", 0, fi.sym)
+	defer mark("end", 0, fi.sym)
 	defs := rt.NewTable()
 	for i, tok := range strings.Split(chain, ",") {
 		d := rt.NewTable()
@@ -817,6 +831,8 @@ func (e *env) nest(fi *fnInfo, chain string) string {
 // returns the status of the context, whether the inner call was refused, and whether the call made
 // AFTER it in the same context worked.
 func (e *env) keepsRunning(fi *fnInfo, F int) string {
+	mark("case", F, fi.sym)
+	defer mark("end", F, fi.sym)
 	class, res, _ := hlib.PCall(e.r, e.runthen, rt.StringValue(flagString(F)), fi.val)
 	if class != hlib.OK || len(res) < 4 {
 		return "harness-" + class
